@@ -3,8 +3,10 @@ from props.polycases import P, W, GRID, coef, poly, grp
 
 ID = "C09"
 GEN_TAGS = ["PolyGen"]
-PROOF_TARGETS = ["proofs/PolyDivProofs.vo", "proofs/XFieldPoly.vo"]
+PROOF_TARGETS = ["proofs/PolyDivProofs.vo", "proofs/XFieldPoly.vo", "proofs/XFieldCleanDivide.vo",
+                 "proofs/PolyDeepenDiv.vo", "proofs/PolyDeepenNewton.vo"]
 PROPS_FILE = "props/C09.v"
+EXTRA_PROPS_FILES = ["props/C09b.v"]
 EXTRACT = "extract/ExtractC09.vo"
 ORACLE = ("gen_c09", "c09.ml")
 HARNESS = "c09"
@@ -55,6 +57,13 @@ ASSUMPTIONS = [
     "two clean_divide defects found by this check were repaired in /repo (87d4e9b, 8b5e451); the historical refutations are the "
     "labelled lemmas C09_clean_divide_v0_refuted / C09_clean_divide_v1_empty_dividend_refuted about the `_v0` / `_v1` models; the "
     "replay inputs are regression cases in corpus/C09/findings.txt",
+    "UPDATE (extension-field instance): clean_divide is now PROVED IN FULL for the current code - C09_clean_divide "
+    "(proofs/XFieldCleanDivide.v): every clean division with deg(dividend) < 2^31 returns the exact quotient, every cutoff, "
+    "every arm including the zero-free NTT arm (C09_clean_divide_ntt_arm); the placeholder C09_clean_divide_full asks for "
+    "zlen < 2^32, one bit more than `ntt` accepts (transform length 2^32 is rejected by u32::try_from), its statement with "
+    "the bound 2^31 is C09_clean_divide_full_2p31. The XFieldElement instances of divide / xgcd / fpsi_minimal / "
+    "structured_multiple / reduce / fast_reduce are unconditional (C09_xfe_*: proofs/XFieldOk.v, XFieldNtt.v, XFieldPoly.v). "
+    "Still partial: formal_power_series_inverse_newton (C09_fpsi_newton_full)",
 ]
 RULE = ("(dividend degree, divisor degree) around (4d, d) for d in {1,2,127,128,129,255,256,257,511,512,513} (+1023..1025 "
         "thorough) for divide / reduce / fast_reduce / rem / div, both fields; divisors with root 0 and double root 0; divisors "
